@@ -381,3 +381,41 @@ PROPS["C11"]._v = PROPS["C11"]._v + [V_BINOP]
 PROPS["C10"]._v = [V_BINOP]
 PROPS["C17"]._v = PROPS["C17"]._v + [V_BINOP]
 PROPS["C02"]._v = ALL_V
+
+
+V_EQ = VUnit("eq", "eq", ["eval::eq (recursive, any depth)", "error::render_type", "lemmas: reflexive / same boolean in both orders / transitive / identity implies equality"])
+ALL_V.append(V_EQ)
+PROPS["C10"]._v = [V_EQ, V_BINOP]
+PROPS["C10"].level = "proof"
+PROPS["C10"].explanation = (
+    "Unit V-eq: eval::eq copied verbatim and verified (Verus) equal to the functional specification `veq` for values of ANY depth and size "
+    "(lists by position, objects by key, identity short-cut, length short-cut, first type mismatch reported with both type names in operand order); "
+    "the laws of the property are lemmas over `veq`: true on every function-free value compared with itself, the two operand orders never give "
+    "different booleans, transitive, identity implies equality. Unit V-binop: == / != share one answer and negate it, === / !== are cell identity, "
+    "defined exactly for list/list, object/object, func/func. Kani leaf contracts on the real crate repeat the scalar laws for all payloads and the "
+    "list/object cases at small bounds (bounded, not counted). NOT decided: the lock re-entrancy abort when the operands SHARE sub-structure "
+    "(`a := [[]]; [a] == a`) - the recursive comparison holds both locks while descending; A-lock assumes it away.")
+PROPS["C10"].assumptions = [
+    "A-lock: locking succeeds and cells are not shared between / inside the operands (shared sub-structure is exactly the undecided case; known crash by reading)",
+    "std BTreeMap iteration visits every entry exactly once (assumed `entries` contract); Arc::ptr_eq is an equivalence and one cell has one content",
+    "`comparing never mutates`: eq takes shared references to exclusively-owned cells in the model - true by typing under A-lock, not a heap claim",
+]
+PROPS["C10"].trusted_base = VERUS_TRUST + COMMON_TRUST
+PROPS["C10"].not_covered = ["lock discipline on shared sub-structure", "deep-copy construction (how equal values are built)"]
+
+PROPS["C16"] = Prop(
+    "C16", "proof",
+    "Unit V-binop: apply_binary_operation copied verbatim and verified (Verus) for all 15 operators and ALL operand values at once: accepted exactly on "
+    "the documented operand kinds, otherwise an error at the operator naming the operator and both operands in order (for == / != the two type names from "
+    "the comparison). Unit V-eq: render_type returns the documented names. Unit V-coerce: conditions must be bool, indices / range bounds non-negative int, "
+    "property names string - else IncorrectType naming the expected type at the expression. Unit V-expr: indexing / property / type-function / spread / "
+    "shorthand kind checks inside expressions (->type() namespace defined for every value but null). Units V-bindnext, V-items, V-call, V-object, V-list: "
+    "destructuring sources, spread operands and callees of the wrong kind are reported errors.",
+    vunits=[V_BINOP, V_EQ, V_COERCE, _vu("expr", ["eval::eval_expr"]), _vu("bind_next", ["bind::bind_next"]), _vu("items", ["eval::eval_list_items"]),
+            _vu("call", ["eval::eval_call"])],
+    assumptions=["the `for` iterable kind check lives in value_to_pairs (Kani leaf contract, C07 units)",
+                 "type_functions::render_type / any_type (the ->type() builtin) duplicate error::render_type: only the latter is under contract here unless the Kani unit for it is registered",
+                 "interpolation slot values must be strings: inside interpolate_string, not under contract"],
+    trusted_base=VERUS_TRUST,
+    not_covered=["interpolate_string's slot type check", "builtins' own argument checks", "the `->type()` builtin's name table (duplicate of render_type)"],
+)
